@@ -14,7 +14,7 @@ fn token_types() -> Vec<usize> {
 }
 
 fn transition_sets() -> Vec<Vec<(usize, usize)>> {
-    vec![vec![], vec![(0, 1)], vec![(1, 0), (5, 2)], vec![(u32::MAX as usize, usize::MAX)]]
+    vec![vec![], vec![(0, 1)], vec![(1, 0), (5, 2)], vec![(1, 2), (2, 1)], vec![(0, 2), (1, 1), (65_536, 0)], vec![(u32::MAX as usize, usize::MAX)]]
 }
 
 fn las() -> Vec<Option<(bool, String)>> {
@@ -145,6 +145,16 @@ pub fn run(tier: Tier) -> ! {
             }
         }
     }
+    // three modes whose transitions are not in target order; behaviour must survive the round trip
+    for (t0, t1) in [(vec![(0usize, 2usize), (1, 1)], vec![(0usize, 0usize)]), (vec![(0, 1), (1, 2)], vec![(1, 0), (2, 2)]), (vec![(1, 2), (2, 1)], vec![(0, 2), (2, 0)])] {
+        cfgs.push(Cfg {
+            modes: vec![
+                CMode { name: "INITIAL".into(), pats: vec![CPat::new("a", 0), CPat::new("b", 1), CPat::new("\"", 2)], transitions: t0.clone() },
+                CMode { name: "COMMENT".into(), pats: vec![CPat::new("b", 0), CPat::new("a+", 1), CPat::new("\\\\", 2)], transitions: t1.clone() },
+                CMode { name: "STRING".into(), pats: vec![CPat::new("[ab]", 0), CPat::new("\"", 1)], transitions: vec![(1, 0)] },
+            ],
+        });
+    }
     cfgs.push(Cfg { modes: vec![] });
     let accs = par_for(cfgs.len(), 64, || Acc { samples: Samples::new(1), ..Default::default() }, |acc, i| {
         let cfg = &cfgs[i];
@@ -174,7 +184,7 @@ pub fn run(tier: Tier) -> ! {
         total.samples.merge(a.samples);
     }
     let mut fams = vec![
-        json!({"family": "one mode, one pattern: mode name x pattern string (12 special strings each) x token type {0,1,65535,65536,u32::MAX,usize::MAX} x lookahead {none, positive, negative} x 12 strings x 4 transition lists", "configurations": n1, "exhaustive": true}),
+        json!({"family": "one mode, one pattern: mode name x pattern string (12 special strings each) x token type {0,1,65535,65536,u32::MAX,usize::MAX} x lookahead {none, positive, negative} x 12 strings x 6 transition lists (targets ascending, descending, mixed)", "configurations": n1, "exhaustive": true}),
         json!({"family": "1..2 modes, 0..2 patterns: every (pattern string, lookahead option) combined with three second patterns; empty mode list", "configurations": cfgs.len() - n1, "exhaustive": true}),
     ];
 
